@@ -21,7 +21,7 @@ POOL = [
     "y ~ x", "y ~ f", "y ~ 0 + f:g + x", "y ~ f*g + poly(x, 2)", "yc ~ x", "yc[v] ~ f + x", "prop(s, n) ~ x + f", "prop(s, 9) ~ x",
     "y ~ 1", "x + f", "y ~ x + (1|g)", "y ~ (x|g)", "y ~ (f|g)", "y ~ (0 + f|g) + (1|h)", "y ~ (x|g:h) + (0 + f:x|h)",
     "y ~ (x|g) + (x|h)", "y ~ x + (bs(x, df=3)|g)", "y ~ f + (f|g) + (x|h)", "y ~ 0 + C(k) + (1|g/h)", "y ~ (1|h) + (f*x|g)",
-    "yc ~ 0 + x + (0 + x|g)", "(x|g)", "y ~ one + x + f", "y ~ x + one + (1|g) + (0 + x|g)",  # 'one' has a single level: a term without columns
+    "yc ~ 0 + x + (0 + x|g)", "(x|g)", "y ~ one + x + f", "y ~ x + one + (1|g) + (0 + x|g)", "y ~ x + offset(s) + f", "y ~ offset(2.5) + (1|g)", "y ~ C(fl) + x", "y ~ x + (1|C(fl))",  # 'one' has a single level: a term without columns
 ]
 FRAMES = ["sub", "rev", "newg", "newh", "newgh"]
 FRAMES_T = FRAMES + ["one", "dup"]
@@ -37,6 +37,7 @@ def train():
         df["n"] = 9
         df["s"] = [i % 7 for i in range(n)]
         df["one"] = "only"
+        df["fl"] = [[1000001.0, 1000002.0, 0.1 + 0.2, 0.3][i % 4] for i in range(n)]  # distinct levels that agree to 6 significant digits
         _DF = df
     return _DF
 
@@ -54,6 +55,7 @@ def other_frame():
         df["n"] = 12
         df["s"] = [i % 5 for i in range(n)]
         df["one"] = "only"
+        df["fl"] = [[1000001.0, 1000002.0, 0.1 + 0.2, 0.3, 7.5][i % 5] for i in range(n)]
         _OTHER = df
     return _OTHER
 
